@@ -249,11 +249,13 @@ func (g *group) Parse(ctx *parseContext, parent reflect.Value) (out []reflect.Va
 	max := 1
 	switch g.mode {
 	case groupMatchNonEmpty:
+		start := ctx.RawCursor()
 		out, err = g.expr.Parse(ctx, parent)
 		if err != nil {
 			return out, err
 		}
-		if len(out) == 0 {
+		// A capture or sub-production that matched nothing still yields a value: what counts is consumed input.
+		if len(out) == 0 || ctx.RawCursor() == start {
 			t := ctx.Peek()
 			return out, Errorf(t.Pos, "sub-expression %s cannot be empty", g)
 		}
